@@ -186,7 +186,27 @@ impl GenerationPass for AvailableValuePass {
                     out_reg_n.extend(Register::all_writable_set().into_available_values());
                 }
                 if node.is_function_entry() {
-                    out_reg_n.extend(Register::callee_saved_set().into_available_values());
+                    // What a caller hands over. A jump or branch back to the function's own label
+                    // from inside the function arrives here as well: then only what still holds
+                    // on those paths is known
+                    // (otherwise "the value at entry" would be assumed anew on every turn of a
+                    // loop that starts at the entry).
+                    let mut at_entry = Register::callee_saved_set().into_available_values();
+                    let from_inside = node
+                        .prevs()
+                        .iter()
+                        .filter(|x| visited.contains(*x))
+                        .filter(|x| x.functions().iter().any(|f| Rc::ptr_eq(&f.entry(), &node)))
+                        .map(|x| x.reg_values_out())
+                        .reduce(|mut acc, x| {
+                            acc &= &x;
+                            acc
+                        });
+                    if let Some(values) = from_inside {
+                        at_entry &= &values;
+                    }
+                    out_reg_n -= Register::callee_saved_set().iter();
+                    out_reg_n.extend(at_entry);
                 }
                 if node.is_program_entry() {
                     out_reg_n.extend(Register::sp_ra_set().into_available_values());
